@@ -140,30 +140,23 @@ Qed.
 
 (** ** Text *)
 
-Lemma strip_rev_no_leading_zero r : match strip_rev r with 0 :: _ => False | _ => True end.
+Lemma strip_suffix t : exists z, t = strip_trailing_zeros t ++ z /\ Forall (fun b => b = 0) z.
 Proof.
-  induction r as [|x r IH]; cbn; [exact I|].
-  destruct x; auto.
-Qed.
-
-Lemma strip_rev_suffix r : exists z, r = z ++ strip_rev r /\ Forall (fun b => b = 0) z.
-Proof.
-  induction r as [|x r (z & E & Hz)]; cbn.
+  induction t as [|x t (z & E & Hz)]; cbn [strip_trailing_zeros].
   - exists []. split; [reflexivity|constructor].
-  - destruct x as [|p|p].
-    + exists (0 :: z). split; [cbn; now f_equal|now constructor].
-    + exists []. split; [reflexivity|constructor].
-    + exists []. split; [reflexivity|constructor].
+  - destruct (strip_trailing_zeros t) as [|y r] eqn:S.
+    + destruct (Z.eqb_spec x 0) as [->|Hx].
+      * exists (0 :: z). cbn in *. split; [now f_equal|now constructor].
+      * exists z. cbn in *. split; [now f_equal|exact Hz].
+    + exists z. split; [cbn; now f_equal|exact Hz].
 Qed.
 
 Lemma text_norm_length t : Z.of_nat (length (text_norm t)) <= maxlen.
 Proof.
-  unfold text_norm, strip_trailing_zeros. rewrite rev_length.
-  destruct (strip_rev_suffix (rev (firstn (Z.to_nat maxlen) t))) as (z & E & _).
-  apply (f_equal (@length Z)) in E. rewrite app_length, rev_length in E.
+  unfold text_norm.
+  destruct (strip_suffix (firstn (Z.to_nat maxlen) t)) as (z & E & _).
+  apply (f_equal (@length Z)) in E. rewrite app_length in E.
   pose proof (firstn_le_length (Z.to_nat maxlen) t).
-  assert (length (firstn (Z.to_nat maxlen) t) <= Z.to_nat maxlen)%nat.
-  { rewrite firstn_length. lia. }
   unfold maxlen in *. lia.
 Qed.
 
@@ -186,11 +179,10 @@ Qed.
 
 Lemma text_norm_nonneg t : Forall (fun b => 0 <= b) t -> Forall (fun b => 0 <= b) (text_norm t).
 Proof.
-  intros H. unfold text_norm, strip_trailing_zeros.
-  apply Forall_rev.
-  destruct (strip_rev_suffix (rev (firstn (Z.to_nat maxlen) t))) as (z & E & _).
-  assert (F : Forall (fun b => 0 <= b) (rev (firstn (Z.to_nat maxlen) t))).
-  { apply Forall_rev. apply Forall_forall. intros b Hb. rewrite Forall_forall in H.
+  intros H. unfold text_norm.
+  destruct (strip_suffix (firstn (Z.to_nat maxlen) t)) as (z & E & _).
+  assert (F : Forall (fun b => 0 <= b) (firstn (Z.to_nat maxlen) t)).
+  { apply Forall_forall. intros b Hb. rewrite Forall_forall in H.
     apply H. rewrite <- (firstn_skipn (Z.to_nat maxlen) t). apply in_or_app. now left. }
   rewrite E in F. apply Forall_app in F. tauto.
 Qed.
